@@ -122,7 +122,7 @@ PROPS = {
     ),
     "C02": dict(
         module="OrbitModel.Properties.C02",
-        theorems=["Orbit.C02.every_replica_gets_every_write", "Orbit.C02.held_never_shrinks", "Orbit.C02.final_phase_exists"],
+        theorems=["Orbit.C02.parent_walk_tied_to_go_text", "Orbit.C02.every_replica_gets_every_write", "Orbit.C02.held_never_shrinks", "Orbit.C02.final_phase_exists"],
         families=[("routes", 120, 4000, 14), ("reload", 30, 800, 12)],
         corr_fields={"values", "heads", "exchange", "local", "remote", "load", "len", "loadq"},
         nontrivial=nt_multiwriter_merge,
@@ -143,7 +143,7 @@ PROPS = {
     ),
     "C10": dict(
         module="OrbitModel.Properties.C10",
-        theorems=["Orbit.C10.sync_order_tied_to_go_text", "Orbit.C10.rejected_never_block", "Orbit.C10.valid_entries_of_a_mixed_batch_are_merged", "Orbit.C10.refused_heads_are_never_fetched",
+        theorems=["Orbit.C10.parent_walk_tied_to_go_text", "Orbit.C10.sync_order_tied_to_go_text", "Orbit.C10.rejected_never_block", "Orbit.C10.valid_entries_of_a_mixed_batch_are_merged", "Orbit.C10.refused_heads_are_never_fetched",
                   "Orbit.C10.refused_head_was_fetched_before_the_fix", "Orbit.C10.pinned_tree_blocks_valid"],
         families=[("forge", 150, 4000, 10)],
         corr_fields={"values", "heads", "idx", "len", "sync", "loadq"},
@@ -154,7 +154,7 @@ PROPS = {
     ),
     "C11": dict(
         module="OrbitModel.Properties.C11",
-        theorems=["Orbit.C11.slots_are_conserved", "Orbit.C11.no_hole_is_forgotten", "Orbit.C11.at_rest_means_complete", "Orbit.C11.later_request_completes",
+        theorems=["Orbit.C11.parent_walk_tied_to_go_text", "Orbit.C11.slots_are_conserved", "Orbit.C11.no_hole_is_forgotten", "Orbit.C11.at_rest_means_complete", "Orbit.C11.later_request_completes",
                   "Orbit.C11.at_most_two_requests", "Orbit.C11.unclean_request_can_miss", "Orbit.C11.pinned_tree_wedges"],
         families=[("cancel", 120, 3000, 8)],
         corr_fields={"values", "heads", "len", "loadq"},
